@@ -9,7 +9,7 @@ use harness::guard::Arena;
 use harness::report::{catch, hex, journal, Args, PropAcc};
 use harness::{Observation, ShapeDyn};
 use refmodel::ops::{Kind, KINDS};
-use refmodel::values::{enum_values, scale_ladder, scaled_value, Limits};
+use refmodel::values::{enum_values, flex_big_last, scale_ladder, scaled_value, Limits};
 use refmodel::{ceil, decode, encode, serialize_portable, Desc, Value};
 use serde_json::json;
 
@@ -62,6 +62,8 @@ struct Case<'a> {
     fill: u8,
     /// ladder value: recorded as `scaled_value(N)` instead of its printed form
     scale: Option<usize>,
+    /// index into `flex_big_last(desc)`
+    biglast: Option<usize>,
 }
 
 struct Outcome {
@@ -306,11 +308,12 @@ impl Engine for Emplace {
         }
         let record = |m: &mut Accs, c: &Case, o: &Outcome| {
             if !o.v.is_empty() {
-                let vtxt = match c.scale {
-                    Some(nn) => format!("<ladder value N={}>", nn),
-                    None => format!("{:?}", c.v),
+                let vtxt = match (c.scale, c.biglast) {
+                    (Some(nn), _) => format!("<ladder value N={}>", nn),
+                    (_, Some(bi)) => format!("<flex with a large last item #{}: {}>", bi, format!("{:?}", c.v).chars().take(80).collect::<String>()),
+                    _ => format!("{:?}", c.v),
                 };
-                let replay = json!({"engine": "emplace", "shape": c.s.id(), "vi": c.vi, "value": vtxt, "scale": c.scale, "kind": kname(c.kind), "entry": ename(c.entry), "n": c.n, "off": c.off, "fill": c.fill});
+                let replay = json!({"engine": "emplace", "shape": c.s.id(), "vi": c.vi, "value": vtxt, "scale": c.scale, "biglast": c.biglast, "kind": kname(c.kind), "entry": ename(c.entry), "n": c.n, "off": c.off, "fill": c.fill});
                 for (p, key, detail) in &o.v {
                     if let Some(acc) = m.get_mut(p) {
                         acc.violate(format!("emplace/{}/{}/{}", key, ename(c.entry), fam), format!("{} value={} kind={} n={} off={} fill={:02x}: {}", c.s.id(), vtxt, kname(c.kind), c.n, c.off, c.fill, detail.chars().take(800).collect::<String>()), replay.clone());
@@ -355,7 +358,7 @@ impl Engine for Emplace {
                             let fills: &[u8] = if aligned && n >= need { &FILLS } else { &FILLS[2..] };
                             let mut images: Vec<Vec<u8>> = vec![];
                             for &fill in fills {
-                                let c = Case { s, d: &d, v, vi, kind, entry, n, off, fill, scale: None };
+                                let c = Case { s, d: &d, v, vi, kind, entry, n, off, fill, scale: None, biglast: None };
                                 journal(format!("emplace {} vi={} kind={} entry={} n={} off={} fill={}", id, vi, kname(kind), ename(entry), n, off, fill).as_bytes());
                                 let o = run_case(&mut arena, &c);
                                 record(&mut m, &c, &o);
@@ -411,11 +414,30 @@ impl Engine for Emplace {
                     }
                     for kind in KINDS {
                         for (n, fill) in [(need.saturating_sub(a), 0xEEu8), (need - 1, 0xEE), (need, 0xEE), (need, 0x00), (need + 1, 0xEE), (need + a, 0x11), (need + 2 * a + 3, 0xEE)] {
-                            let c = Case { s, d: &d, v: &v, vi: 0, kind, entry: Entry::New, n, off: 0, fill, scale: Some(nn) };
+                            let c = Case { s, d: &d, v: &v, vi: 0, kind, entry: Entry::New, n, off: 0, fill, scale: Some(nn), biglast: None };
                             journal(format!("emplace-scale {} N={} kind={} entry={} n={} off=0 fill={}", id, nn, kname(kind), ename(Entry::New), n, fill).as_bytes());
                             let o = run_case(&mut big_arena, &c);
                             record(&mut m, &c, &o);
                         }
+                    }
+                }
+            }
+            // FlexVec contents whose LAST item is large (its sealing offset around the offset type's maximum): the
+            // last item is never sealed, so a buffer that holds the bytes must be accepted
+            for (bi, v) in flex_big_last(&d, if thorough { 70_100 } else { 1100 }).iter().enumerate() {
+                let need = match encode(&d, v, 1 << 18, 0) {
+                    Ok(i) => i.extent,
+                    Err(_) => continue,
+                };
+                if need + 2 * a + 8 > big_arena.capacity() {
+                    big_arena = Arena::new(need + 2 * a + 4096);
+                }
+                for kind in [Kind::Iter, Kind::Grow] {
+                    for (n, fill) in [(need - 1, 0xEEu8), (need, 0xEE), (need + a, 0x00), (need + 2 * a + 3, 0xEE)] {
+                        let c = Case { s, d: &d, v, vi: bi, kind, entry: Entry::New, n, off: 0, fill, scale: None, biglast: Some(bi) };
+                        journal(format!("emplace-biglast {} bi={} kind={} entry={} n={} off=0 fill={}", id, bi, kname(kind), ename(Entry::New), n, fill).as_bytes());
+                        let o = run_case(&mut big_arena, &c);
+                        record(&mut m, &c, &o);
                     }
                 }
             }
@@ -425,7 +447,7 @@ impl Engine for Emplace {
                 }
                 for &b in &buffers {
                     for fill in [0xEEu8, 0x00] {
-                        let c = Case { s, d: &d, v, vi, kind: Kind::Iter, entry: Entry::New, n: b, off: 0, fill, scale: None };
+                        let c = Case { s, d: &d, v, vi, kind: Kind::Iter, entry: Entry::New, n: b, off: 0, fill, scale: None, biglast: None };
                         journal(format!("emplace {} vi={} kind={} entry={} n={} off={} fill={}", id, vi, kname(Kind::Iter), ename(Entry::New), b, 0, fill).as_bytes());
                         let o = run_case(&mut big_arena, &c);
                         record(&mut m, &c, &o);
@@ -436,7 +458,7 @@ impl Engine for Emplace {
                 if let Some(dv) = d.default_value() {
                     for &b in &buffers {
                         for fill in [0xEEu8, 0x00] {
-                            let c = Case { s, d: &d, v: &dv, vi: usize::MAX, kind: Kind::Iter, entry: Entry::Default, n: b, off: 0, fill, scale: None };
+                            let c = Case { s, d: &d, v: &dv, vi: usize::MAX, kind: Kind::Iter, entry: Entry::Default, n: b, off: 0, fill, scale: None, biglast: None };
                             journal(format!("emplace {} default n={} off={} fill={}", id, b, 0, fill).as_bytes());
                             let mut o = run_case(&mut big_arena, &c);
                             for x in o.v.iter_mut() {
@@ -470,7 +492,7 @@ impl Engine for Emplace {
                             let fills: &[u8] = if off == 0 && n >= need { &[0x00, 0xFF, 0xEE, 0x11] } else { &[0xEE] };
                             let mut images: Vec<Vec<u8>> = vec![];
                             for &fill in fills {
-                                let c = Case { s, d: &d, v: &dv, vi: usize::MAX, kind: Kind::Iter, entry: Entry::Default, n, off, fill, scale: None };
+                                let c = Case { s, d: &d, v: &dv, vi: usize::MAX, kind: Kind::Iter, entry: Entry::Default, n, off, fill, scale: None, biglast: None };
                                 journal(format!("emplace {} default n={} off={} fill={}", id, n, off, fill).as_bytes());
                                 let mut o = run_case(&mut arena, &c);
                                 // what C03 checks for new_in_place is the C20 contract for defaults
@@ -640,7 +662,10 @@ impl Engine for Emplace {
         let vi = case["vi"].as_i64().unwrap_or(0);
         let want = case["value"].as_str().unwrap_or("").to_string();
         let mut v: Option<Value> = case["scale"].as_u64().and_then(|nn| scaled_value(&d, nn as usize));
-        let scale = case["scale"].as_u64().map(|x| x as usize);
+        if let Some(bi) = case["biglast"].as_u64() {
+            v = flex_big_last(&d, if case["n"].as_u64().unwrap_or(0) > 4000 { 70_100 } else { 1100 }).into_iter().nth(bi as usize);
+        }
+        let scale = case["scale"].as_u64().or(case["biglast"].as_u64()).map(|x| x as usize);
         for lim in [Limits::quick(), Limits::thorough()] {
             if v.is_some() && scale.is_some() {
                 break;
@@ -667,7 +692,7 @@ impl Engine for Emplace {
         };
         let n = case["n"].as_u64().unwrap() as usize;
         let mut arena = Arena::new(n + 4 * a + 96);
-        let c = Case { s, d: &d, v: &v, vi: 0, kind: kparse(case["kind"].as_str().unwrap_or("iter")), entry, n, off: case["off"].as_u64().unwrap_or(0) as usize, fill: case["fill"].as_u64().unwrap_or(0xEE) as u8, scale: None };
+        let c = Case { s, d: &d, v: &v, vi: 0, kind: kparse(case["kind"].as_str().unwrap_or("iter")), entry, n, off: case["off"].as_u64().unwrap_or(0) as usize, fill: case["fill"].as_u64().unwrap_or(0xEE) as u8, scale: None, biglast: None };
         let o = run_case(&mut arena, &c);
         println!("shape {} value {:?} kind {:?} entry {} n={} off={} fill={:#x}", s.id(), v, c.kind, ename(entry), n, c.off, c.fill);
         println!("outcome class: {}  image: {}", o.class, o.image.as_ref().map(|i| hex(i)).unwrap_or_default());
